@@ -148,6 +148,8 @@ def main():
                        'rule_doc': RULES.get(r.rule, {}).get('doc', ''), 'template': RULES.get(r.rule, {}).get('template', ''), 'detail': r.detail}, open(rp, 'w'), indent=1)
             print('%s [%s] %s %s @ %s: %s' % ('FAIL', cname, r.rule, r.key, r.where, r.msg))
             print('VIOLATION property=%s replay=%s' % (pid, rp))
+        if sweep is not None and sweep.get('checker_regressions_vs_baseline'):
+            print('NOTE: checker sensitivity regression (mutants reported at baseline, silent now): %s' % sweep['checker_regressions_vs_baseline'][:5])
         if selftest is not None and selftest.get('bad'):
             # a corpus regression means the *checker* lost power; it is reported, never a verdict on /repo
             print('NOTE: checker self-validation: %s' % selftest['bad'])
